@@ -75,8 +75,11 @@ class DictValue(GenericValue):
 
         if self._ast_node is None:
             values = [None] * len(self._old_value)
+        elif not isinstance(self._ast_node, ast.Dict):
+            # snapshot[key] was used with something which is no dict display
+            # (the test failed already)
+            return
         else:
-            assert isinstance(self._ast_node, ast.Dict)
             values = self._ast_node.values
 
         for key, node in zip(self._old_value.keys(), values):
